@@ -95,6 +95,8 @@ def assets():
         "b1": b1, "b2": b2, "bgarb": bytes(rng.randrange(256) for _ in range(97)), "btrunc": b1[:1000], "bempty": b"",
         "s1": s1, "s2": s2, "sgarb": bytes(rng.randrange(256) for _ in range(131)), "strunc": s1[:40], "sempty": b"",
         "sbadtrk": sbadtrk, "sbadvlq": sbadvlq,
+        # EA-MUS/RSXX: first byte = offset of the music (>= 0x5D), "rsxx}u" 16 bytes before it; loading it locks the setup
+        "srsxx": bytes([93]) + bytes(76) + b"rsxx}u" + bytes(10) + bytes([0x00, 0x90, 60, 100, 0x10, 0x80, 60, 0, 0x00, 0xFF, 0x2F, 0x00]),
     }
     return {k: list(v) for k, v in a.items()}
 
